@@ -1485,6 +1485,11 @@ class CodeGenerator(NodeVisitor):
 
         const = node.as_const(frame.eval_ctx)
 
+        if not has_safe_repr(const):
+            # The text of other objects, such as a generator returned
+            # by a filter, is only meaningful at runtime.
+            raise nodes.Impossible()
+
         if frame.eval_ctx.autoescape:
             const = escape(const)
 
